@@ -167,7 +167,7 @@ def check_c04(tier, seed):
                     prev_file = None                      # a file part that ends the root so far: the next file part may be nested in it
                     for pi, part in enumerate(parts):
                         if rng.random() < 0.65:
-                            name = f'inc{idx}_{layout}_{pi}.mal'
+                            name = f'inc_{pi}.mal'          # the same file names in every compilation of this process
                             files[name] = [t for d in part for t in d]
                             if prev_file is not None and rng.random() < 0.4:
                                 files[prev_file] = files[prev_file] + [('kw', 'include'), ('str', name)]      # nested include, same order
